@@ -15,6 +15,8 @@ import (
 
 type engine struct{}
 
+var detlogStarted bool
+
 func newRunner(env *core.Env, res *core.Result, b *body, tape *core.Tape, replay bool) *runner {
 	r := &runner{env: env, res: res, b: b, ch: &chooser{t: tape, replay: replay},
 		root: filepath.Join(scratchBase, "run")}
@@ -39,16 +41,26 @@ func (engine) Run(env *core.Env, run int, res *core.Result) *core.Violation {
 		env.J.Done()
 	}
 	if p := os.Getenv("VERIF_DETLOG"); p != "" {
-		if f, err := os.OpenFile(p, os.O_CREATE|os.O_WRONLY|os.O_APPEND, 0o644); err == nil {
+		flags := os.O_CREATE | os.O_WRONLY | os.O_APPEND
+		if !detlogStarted {
+			flags |= os.O_TRUNC // one log per process
+			detlogStarted = true
+		}
+		if f, err := os.OpenFile(p, flags, 0o644); err == nil {
 			fmt.Fprintf(f, "run=%d hash=%016x sig=%s\n", run, r.runHash, r.sig)
 			f.Close()
 		}
+	}
+	if r.sig == "" && r.knownSig != "" {
+		c.Tape = tape.Used()
+		c.Signature, c.Message = r.knownSig, r.knownMsg
+		return &core.Violation{Signature: r.knownSig, Message: r.knownMsg, Case: c}
 	}
 	if r.sig == "" {
 		return nil
 	}
 	if k := "seen:" + r.sig; res.Counters[k] == 0 {
-		res.Notes = append(res.Notes, fmt.Sprintf("first %s after %.1fs (run %d)", r.sig, time.Since(env.Start).Seconds(), run))
+		res.Notes = append(res.Notes, fmt.Sprintf("first %s after %.2fs (run %d)", r.sig, time.Since(env.Start).Seconds(), run))
 	}
 	res.Counters["seen:"+r.sig]++
 	c.Tape = tape.Used()
@@ -90,18 +102,11 @@ func (engine) Minimise(env *core.Env, c *core.Case) *core.Case {
 	sig := c.Signature
 	deadline := time.Now().Add(12 * time.Second)
 	tape := append([]uint32(nil), c.Tape...)
-	level2 := strings.Contains(sig, "stale") || func() bool {
-		r := replayBody(env, b, tape, true)
-		for _, l := range r.trace {
-			if strings.Contains(l, "VIOLATION") {
-				break
-			}
-			if strings.Contains(l, "second life starts") {
-				return true
-			}
-		}
-		return false
-	}()
+	r0 := replayBody(env, b, tape, false)
+	if r0.sig != sig {
+		return c // does not reproduce: leave untouched
+	}
+	level2 := r0.failLevel == 2
 	corrupt := strings.Contains(sig, "/corruption/")
 	try := func(cand *body, t []uint32) ([]uint32, bool) {
 		if time.Now().After(deadline) {
@@ -121,6 +126,11 @@ func (engine) Minimise(env *core.Env, c *core.Case) *core.Case {
 		r.mode = modeSearch
 		r.noLevel2 = true
 		r.noCorrupt = !corrupt
+		r.noCrash = corrupt
+		if corrupt {
+			cor := r0.lastCor
+			r.searchCor = &cor
+		}
 		r.execute()
 		if r.sig == sig {
 			return gt.Used(), true
@@ -132,7 +142,7 @@ func (engine) Minimise(env *core.Env, c *core.Case) *core.Case {
 	}
 	cur := *b
 	// operations after the one in which the violating image was taken never ran
-	if r0 := replayBody(env, b, tape, false); r0.sig == sig && !corrupt {
+	if !corrupt {
 		cand := cur
 		if n := r0.lastOp[0] + 1; n < len(cand.Ops) {
 			cand.Ops = cand.Ops[:n]
